@@ -1,8 +1,9 @@
 (* Props/C03.v — the generated server binds and validates requests per the spec.
    Proved for every parameter of the scalar fragment (strings with length bounds and enum, integers of every format
    with bounds incl. exclusive, booleans; path/query/header/formData; required / optional / allowEmptyValue), every list
-   of raw occurrences of the key and every hasKey flag. Arrays: the collection-format split is modelled (split_by) and
-   its round trip with join is C04_split_join; item conversion reuses [convert]. The body schema is C02's theorem.
+   of raw occurrences of the key and every hasKey flag; and for one-level array parameters of such items in every
+   collection format (csv / ssv / tsv / pipes split of the last occurrence, multi = the occurrences themselves) with
+   item validations, minItems / maxItems / uniqueItems. The body schema is C02's theorem.
    Exercised only: routing, multipart, formats handled by strfmt, nested arrays. *)
 From GS Require Import Base.Str Tools.GenServer Tools.GenServerLemmas.
 
@@ -22,6 +23,24 @@ Theorem C03_absent : forall p rd hk,
   bind p rd hk = Absent -> carried rd = [] /\ sp_path p = false /\ (sp_required p = false \/ sp_allow_empty p = true).
 Proof. exact bind_absent_empty. Qed.
 Print Assumptions C03_absent.
+
+(* array parameters: accepted exactly when every item converts and validates and the counts / uniqueness hold *)
+Theorem C03_array_bind_iff : forall p rd hk, bind_array p rd hk <> AReject <-> areq_ok p rd hk.
+Proof. exact bind_array_iff. Qed.
+Print Assumptions C03_array_bind_iff.
+
+Theorem C03_array_values : forall p rd hk vs, bind_array p rd hk = ABound vs ->
+  Forall2 (fun raw v => convert (ap_elem p) raw = Some v /\ valid_value (ap_elem p) v = true) (items_of p rd) vs /\
+  count_ok p vs = true /\ (ap_unique p = true -> distinct_values vs = true).
+Proof. exact bind_array_values. Qed.
+Print Assumptions C03_array_values.
+
+Example C03_array_nonvacuous :
+  let p := {| ap_required := true; ap_multi := false; ap_sep := 124; ap_elem := PInt (-2147483648) 2147483647 (Some 1%Z) false None false;
+              ap_minitems := Some 1%Z; ap_maxitems := Some 3%Z; ap_unique := true |} in
+  bind_array p [s "9|9"; s "3| 4 |5"] true = ABound [VInt 3; VInt 4; VInt 5] /\ bind_array p [s "3|3"] true = AReject /\
+  bind_array p [s "1|2|3|4"] true = AReject /\ bind_array p [s "0"] true = AReject /\ bind_array p [s ""] true = AReject /\ bind_array p [] false = AReject.
+Proof. repeat split; vm_compute; reflexivity. Qed.
 
 Example C03_nonvacuous :
   let p := {| sp_path := false; sp_header := false; sp_required := true; sp_allow_empty := false;
